@@ -62,7 +62,7 @@ CLAUSES = {
     'C09': [
         ('path, entry, safety take effect on the next call; idempotent repeat; file = text', 'ParserFacade (ideal) / ParserFacadeImpl (cache flags) refinement', 'A: Gen_C09 histories on real files'),
         ('processes, hash seeds, earlier translations, threads', 'TokenTables: lazy initialisation interleavings', 'A: subprocess sweeps, thread part; B: Trace_C09'),
-        ('the whole pipeline: a file replaced under its path, the cached text, the written class file, executors from file / text while the file keeps changing', 'E2PW: ExecutorKeepsItsWorkbook, PipelineLeavesOverridesAlone, TextStableUntilAnnounced, TextIsCurrentAfterAnnounce, FileEqualsText, VersionsDiffer', 'A: Gen_E2PW every pipeline history of 5 / 6 steps; B: Trace_E2PW random pipeline histories (version observed through a marker cell)'),
+        ('the whole pipeline: a file replaced under its path, the cached text, the written class file, executors from file / text while the file keeps changing', 'E2PW: ExecutorKeepsItsWorkbook, PipelineLeavesOverridesAlone, TextStableUntilAnnounced, TextIsCurrentAfterAnnounce, FileEqualsText, VersionsDiffer; E2PWImpl Refines + 3 censuses; ApaPipeline: IndInv inductive (Apalache)', 'A: Gen_E2PW every pipeline history of 5 / 6 steps; B: Trace_E2PW random pipeline histories (version observed through a marker cell)'),
     ],
     'C10': [
         ('exact numeric order; trichotomy; negations; a<b <=> b>a', 'XlCompare: Cmp3; laws as predicates on six observed booleans (MC_XlCompare)', 'A: Gen_C10 grid pairs (literal, cell, override); B: Trace_C10'),
